@@ -383,17 +383,20 @@ def releaseExp (w : World) (e : Nat) (x : Exp) : World × List Ev :=
   (w2.setExp e { x with alive := false, link := .unlinked,
                         reported := x.reported || isUnfulfilled x }, evs)
 
-/-- `call_matcher_list::decommission` (mock.hpp:1988-2000) over one list. -/
+/-- one iteration of `call_matcher_list::decommission` (mock.hpp:1988-2000):
+    `mock_destroyed()` (report if unfulfilled) then `unlink()`. -/
+def decomStep (acc : World × List Ev) (e : Nat) : World × List Ev :=
+  match acc.1.exps e with
+  | some x =>
+    if isUnfulfilled x then
+      (acc.1.setExp e { x with reported := true, link := .unlinked },
+       acc.2 ++ [acc.1.rep .nonfatal (.pendingDestroyed e x.lo x.count)])
+    else (acc.1.setExp e { x with link := .unlinked }, acc.2)
+  | none => acc
+
+/-- `call_matcher_list::decommission` over one list. -/
 def decommission (w : World) (es : List Nat) : World × List Ev :=
-  es.foldl (fun (acc : World × List Ev) e =>
-    let (w, evs) := acc
-    match w.exps e with
-    | some x =>
-      if isUnfulfilled x then
-        (w.setExp e { x with reported := true, link := .unlinked },
-         evs ++ [w.rep .nonfatal (.pendingDestroyed e x.lo x.count)])
-      else (w.setExp e { x with link := .unlinked }, evs)
-    | none => (w, evs)) (w, [])
+  es.foldl decomStep (w, [])
 
 /-- `~expectations` of every mock function, members destroyed in reverse declaration order. -/
 def killMock (w : World) (o : Nat) (m : Mock) : World × List Ev :=
